@@ -5,21 +5,30 @@ A case is a plain-JSON value
    'grids': [grid specs]          (index = grid id; variants of base['grid']: shifted, shortened, other frequency,
                                     other zone, other main time unit),
    'prices': [{'T', 'form', 'data': {key: [floats]}, 'index_grid'?}]   (index = price id; forms: dict of arrays,
-                                    dict of lists, dict of Series, DataFrame with RangeIndex / DatetimeIndex),
+                                    dict of lists, dict of Series with RangeIndex / with DatetimeIndex ('dict_series_time'),
+                                    DataFrame with RangeIndex / DatetimeIndex),
    'history': [call, ...],
-   'stream'?: 'freq' | 'data' | 'ramp'  (which generator made the case; informative only)}
+   'stream'?: 'freq' | 'data' | 'ramp' | 'layout' | 'pdata' | ...  (which generator made the case; informative only)}
 Generators: gen_case (general), gen_state_case (slot logic), gen_nested_case (slot logic over wrappers nested in wrappers - scaled over
 structured / linked, scaled and structured inside structured, to depth 4 - and linked assets), gen_splitfail_case (split set-ups that raise
 in one of their intervals, then set-ups without grid argument), gen_freq_case (assets with an own frequency equal to the step of one
 of the grids, in any spelling, over finer / coarser / equal grids), gen_data_case (plant / CHP parameters keyed into the price data,
 repeated set-ups of the same portfolio on the same grid object with several data sets), gen_ramp_case (plants / CHPs with start /
-shutdown ramp profiles, ramp_freq None or set, minimum run / down times, over grids that differ in step AND main time unit).
+shutdown ramp profiles, ramp_freq None or set, minimum run / down times, over grids that differ in step AND main time unit),
+gen_layout_case (assets whose VARIABLE LAYOUT depends on the grid or the data of the call - plants / CHPs / CHPs with minimum-load costs
+whose only reason for on / start variables is a duration that is some steps on one grid and rounded to one step on a coarser one, or a
+start cost / start fuel / idle consumption keyed into the data that is zero in some data sets; contracts with one or two variables per
+step depending on extra costs in the data or on capacities that change sign over the horizon - set up on 2-4 grids of one horizon with
+other steps / shorter horizons), gen_pdata_case (the user's price data in every container, mostly WITH A TIME INDEX over the data
+horizon, the same container object handed to set-ups directly and to the doors that cast data to a grid by time - io.optimize,
+Timegrid.prices_to_grid + set-up, split set-up - on other horizons).
 A call is {'op': ..., ...} with op one of
   asset_setup {asset, grid, reuse, prices}      asset.setup_optim_problem(prices, tg)
   set_timegrid {asset, grid, reuse}             asset.set_timegrid(tg)
   asset_noarg {asset, prices}                   asset.setup_optim_problem(prices)      (grid set before)
   pf_setup {grid, reuse, prices, skip?, fix?, noarg?}   portfolio.setup_optim_problem(...)
   pf_split {grid, reuse, prices, interval}      portfolio.setup_split_optim_problem(...)
+  pf_cast {grid, reuse, prices}                 portfolio.setup_optim_problem(tg.prices_to_grid(prices), tg)   (what io.optimize does first)
   cost_samples {grid, reuse, prices: [pid..]}   portfolio.create_cost_samples([...], tg)
   io_optimize {grid, reuse, prices, interval?}  eaopack.io.optimize(portf, tg, data[, split_interval_size])
   optimize {soft}                               last_op.optimize([make_soft_problem=True]) (then plain)
@@ -41,6 +50,11 @@ the oracle `parameter_changed`: a CONSTRUCTOR PARAMETER of an asset (names from 
 holds another value after a set-up call (or set_timegrid) than after construction, beyond the accepted normalisation of its form
 (scalar -> one-element list, index / array -> list; level 'form'), is a violation ("does not alter user-supplied parameters":
 e.g. a default that is resolved from the grid of the call and written back to the object).
+Oracle `prices_changed_for_later_calls` ("does not alter ... price data in a way that changes or breaks later calls"): whenever a call
+left a PRICE CONTAINER in another state than the one it was created in, a copy of the used container and a pristine container (built
+anew from the case, i.e. a deep copy taken before the first call) are both handed to the later calls a user can make with them - on
+every grid of the case Timegrid.prices_to_grid (first step of io.optimize and of the split set-up) and the direct set-up of a FRESH
+object tree - and these must give the same (frame / problem / raise or not).
 """
 import copy
 import datetime as dt
@@ -62,7 +76,7 @@ from ..impl import Quiet, err_class
 ID = 'C10'
 NAN_S, PINF_S, NINF_S = 2.0 ** 30 + 0.125, 2.0 ** 31, -2.0 ** 31      # sentinels: Fraction() cannot hold nan/inf
 
-SETUP_OPS = ('asset_setup', 'asset_noarg', 'pf_setup', 'pf_split', 'cost_samples', 'io_optimize')
+SETUP_OPS = ('asset_setup', 'asset_noarg', 'pf_setup', 'pf_split', 'cost_samples', 'io_optimize', 'pf_cast')
 READ_OPS = ('extract', 'dcf', 'fill_level', 'make_slp')
 
 
@@ -838,6 +852,9 @@ class World:
             c = {k: [float(x) for x in v] for k, v in data.items()}
         elif f == 'dict_series':
             c = {k: pd.Series(np.asarray(v, dtype=float)) for k, v in data.items()}
+        elif f == 'dict_series_time':
+            tg = scen.make_grid(self.case['grids'][p['index_grid']])
+            c = {k: pd.Series(np.asarray(v, dtype=float), index=tg.timepoints) for k, v in data.items()}
         elif f == 'df_range':
             c = pd.DataFrame({k: np.asarray(v, dtype=float) for k, v in data.items()})
         elif f == 'df_time':
@@ -988,6 +1005,9 @@ def run_setup_call(world, call, expected_gid=None, capture_io=True):
                                                             interval_size=call['interval'])
         finally:
             portf.__dict__.pop('setup_optim_problem', None)
+    if op_ == 'pf_cast':
+        tg = world.grid(call['grid'], call.get('reuse', True))
+        return 'problem', portf.setup_optim_problem(tg.prices_to_grid(world.prices(call['prices'])), tg)
     if op_ == 'cost_samples':
         return 'costs', portf.create_cost_samples([world.prices(p) for p in call['prices']], world.grid(call['grid'], call.get('reuse', True)))
     if op_ == 'io_optimize':
@@ -1864,7 +1884,7 @@ def state_execute(case, drv, max_dis=6, version=None):
                 elif o == 'set_timegrid':
                     group = [{'call': 'setTimegrid', 'ad': where, 'g': g}]
                     W.byname[nm].set_timegrid(tg)
-                elif o == 'pf_setup':
+                elif o in ('pf_setup', 'pf_cast'):
                     group = [{'call': 'setupPortfolio', 'g': g}]
                     k, v = run_setup_call(W, call)
                     last = {'kind': 'problem', 'op': v, 'tg': getattr(W.portf, 'timegrid', None), 'pid': call['prices']}
